@@ -98,6 +98,31 @@ IdleEnough(cfg) == 2 * cfg.p + 2                 \* idle seconds after which the
 WarmEnough(cfg) == 2 * cfg.p + 2                 \* saturated seconds after which the full threshold must be reached (see notes: integer tokens)
 StarveBound(cfg) == 2 * cfg.p + 5                \* consecutive seconds of unserved single-token demand that count as "forever"
 
+\* ---- a rule REPLACED under traffic (flow.LoadRules with a changed threshold / period / cold factor) ----
+\* The statement speaks of "the configured threshold" and of the resource having been idle; a reload changes the
+\* configuration in the middle of a history.  What the envelope demands of the rule NOW in force:
+\*   * the admitted rate never exceeds the NEW threshold (tokens admitted since the reload);
+\*   * "reaches the full threshold after sustained demand for the warm-up period" counts sustained demand from the reload
+\*     (a new rule may start cold; an implementation that carries progress over only gets there earlier);
+\*   * "starts no higher than about threshold/coldFactor": a new rule may start cold (a fresh calculator: what the code
+\*     does) or carry over warm-up PROGRESS, but no more than the history of the resource justifies.  Progress is the
+\*     fraction U of the way from cold (T/cold) to warm (T); sustained demand for the whole period justifies U = 1, so every
+\*     second in which the resource admitted something justifies 1/period (the warm-up curve of the calculator is convex:
+\*     it stays below this chord), U = 0 after IdleEnough idle seconds or a first load.  At a reload the fraction is kept
+\*     (proportional carry-over is acceptable) and the demand of the second before the reload counts for the new rule as
+\*     well (its first synchronisation reads that second from the statistic the modified rule keeps - C14).  Alternatively
+\*     the new rule may serve the ABSOLUTE rate the old rule was justified to serve (a resource served at 66/s is warm for
+\*     a new threshold of 10).  What is NOT justified: the full threshold at once after cold traffic only.
+\* U is kept as ju / L (L = a common multiple of the periods in play).
+RLe(a, b)  == a.n * b.d <= b.n * a.d
+RMax(a, b) == IF RLe(a, b) THEN b ELSE a
+RMin(a, b) == IF RLe(a, b) THEN a ELSE b
+RZero      == [n |-> 0, d |-> 1]
+ProgFrac(cfg, ju, L) == [n |-> cfg.tn * (L + ju * (Cold(cfg) - 1)), d |-> cfg.td * Cold(cfg) * L]    \* T/cold * (1 + U*(cold-1))
+ProgRate(cfg, ju, L, ra) == RMax(ProgFrac(cfg, ju, L), RMin([n |-> cfg.tn, d |-> cfg.td], ra))
+\* admissions per aligned second the history justifies ("about": the slack of ColdCap; ju = 0, ra = 0 gives ColdCap)
+ProgCap(cfg, ju, L, ra)  == CeilR(ProgRate(cfg, ju, L, ra)) + 1
+
 \* configuration classes in which the implementation is known to leave the envelope (see notes/C11.md).
 \* ColdBelowOne: before fix 7ba6ba0 every request was rejected forever; since then requests are served, which exposes that
 \* ColdLimit = uint32(T)/cold = 0 there: at or above the warning line the bucket is never refilled, so after an idle
